@@ -30,7 +30,7 @@ ASSUME = [
 
 ALLK = ["find_node", "put", "put_to", "get", "provide", "get_providers"]
 MC_BASE = {"Peers": {"p1", "p2", "p3"}, "Qs": {1}, "Kinds": set(ALLK), "Quorums": {"one", "n2", "all"},
-           "Roles": "<- AnyNoAddr", "Fixed": "<- NoFixed", "Limit": True, "Inbound": False, "Discover": False, "Mut": "none"}
+           "Roles": "<- AnyNoAddr", "Fixed": "<- AllTags", "Limit": True, "Inbound": False, "Discover": False, "Mut": "none"}
 MC_INV = ["SPECIFICATION Spec", "INVARIANTS MonOK QuiesceOK OwedCovered Shape", "CHECK_DEADLOCK FALSE"]
 MC_STRICT = ["SPECIFICATION Spec", "INVARIANTS MonStrict QuiesceStrict OwedStrict Shape", "CHECK_DEADLOCK FALSE"]
 MUTS = ["dialfail_no_report", "closed_no_report", "exfail_no_report", "assume_without_send", "double_terminal",
@@ -38,21 +38,21 @@ MUTS = ["dialfail_no_report", "closed_no_report", "exfail_no_report", "assume_wi
 
 
 def mc_runs(ctx):
-    """Exhaustive runs: the model of the current code must keep the monitor quiet outside the tagged known-defect
-    paths; the model of the repaired code (Fixed = all tags) must keep it quiet everywhere."""
+    """Exhaustive runs.  The model follows the code of /repo after commit f6b26d6 (Fixed = all tags: every failure path
+    reports to the owning query), so the strict invariants - no excuse for tagged paths - must hold everywhere.  The
+    model of the earlier code (Fixed = {}) is kept as a negative configuration of the self-test."""
     if ctx.quick():
-        runs = [("current", dict(MC_BASE), MC_INV), ("repaired", dict(MC_BASE, Fixed="<- AllTags"), MC_STRICT)]
+        runs = [("code", dict(MC_BASE), MC_STRICT)]
     else:
-        runs = [("current", dict(MC_BASE), MC_INV),
-                ("current-inbound-discover", dict(MC_BASE, Inbound=True, Discover=True), MC_INV),
-                ("repaired-inbound-discover", dict(MC_BASE, Fixed="<- AllTags", Inbound=True, Discover=True), MC_STRICT),
+        runs = [("code", dict(MC_BASE), MC_STRICT),
+                ("code-inbound-discover", dict(MC_BASE, Inbound=True, Discover=True), MC_STRICT),
                 ("two-ops", dict(MC_BASE, Peers={"p1", "p2"}, Qs={1, 2}, Kinds={"find_node", "put_to", "provide"},
-                                 Quorums={"one", "all"}, Roles="<- AnyOnly"), MC_INV)]
+                                 Quorums={"one", "all"}, Roles="<- AnyOnly"), MC_STRICT)]
     out = []
     for name, consts, lines in runs:
         r = tlc_mc(ctx, "KadOpsMC.tla", write_cfg(ctx, "mc_%s.cfg" % name, consts, lines), workers=6, timeout=2400)
         if not r["ok"]:
-            raise ToolError("KadOpsMC violates an invariant outside the tagged known-defect paths in config %s "
+            raise ToolError("KadOpsMC violates an invariant in config %s "
                             "(model error or a new design finding to be replayed):\n%s" % (name, r.get("error", r["out"][-3000:])))
         out.append({k: r[k] for k in ("transitions", "distinct", "depth", "wall_s") if k in r})
         out[-1]["cfg"] = name
@@ -504,14 +504,18 @@ def replay(ctx, path):
 
 def selftest(ctx):
     ok = True
-    # (b) negative model configurations: the current code without excusing the known-defect paths, and one seeded
-    #     mutation per failure path of the repaired model, must each violate a property
-    r = tlc_mc(ctx, "KadOpsMC.tla", write_cfg(ctx, "neg_current.cfg", dict(MC_BASE), MC_STRICT), workers=6, expect_violation=True)
+    # (b) negative model configurations: the code before the D10 repair, and one seeded mutation per failure path of
+    #     the model of the current code, must each violate a property
+    r = tlc_mc(ctx, "KadOpsMC.tla", write_cfg(ctx, "neg_before_fix.cfg", dict(MC_BASE, Fixed="<- NoFixed"), MC_STRICT), workers=6, expect_violation=True)
     hit = "is violated" in r["out"]
-    log("selftest model current code, strict invariants -> %s" % ("violated" if hit else "NOT violated"))
+    log("selftest model of the code before f6b26d6 (ignored open/dial errors), strict invariants -> %s" % ("violated" if hit else "NOT violated"))
     ok &= hit
+    # ... while the same model holds the invariants that excuse exactly the tagged paths (the tags are precise)
+    r = tlc_mc(ctx, "KadOpsMC.tla", write_cfg(ctx, "neg_before_fix_tagged.cfg", dict(MC_BASE, Fixed="<- NoFixed"), MC_INV), workers=6)
+    log("selftest model of the code before f6b26d6, tagged paths excused -> %s" % ("holds" if r["ok"] else "VIOLATED"))
+    ok &= r["ok"]
     for m in MUTS:
-        r = tlc_mc(ctx, "KadOpsMC.tla", write_cfg(ctx, "neg_%s.cfg" % m, dict(MC_BASE, Fixed="<- AllTags", Mut=m), MC_STRICT),
+        r = tlc_mc(ctx, "KadOpsMC.tla", write_cfg(ctx, "neg_%s.cfg" % m, dict(MC_BASE, Mut=m), MC_STRICT),
                    workers=6, expect_violation=True)
         inv = re.findall(r"Invariant (\w+) is violated", r["out"])
         log("selftest model mutation %s -> %s" % (m, "violated %s" % inv[0] if inv else "NOT violated"))
